@@ -734,6 +734,8 @@ mod response {
 
             // Don't return anything next time we are called!
             self.content_length = 0;
+            // the reader may have delivered bytes past the end of this body
+            buffer.truncate(len);
             Ok(buffer.freeze())
         }
     }
